@@ -539,8 +539,10 @@ def gen_ops(r, cid, growth=True, loads="mutated"):
     raw_areas = []                                  # (b, off, len) pokeable bytes
     feats = set()
 
-    def target(allow_null=True):
-        cands = [(b, o) for b in range(n) if used[b] > 0 for o in {0, used[b] - 1, r.randrange(used[b])}]
+    def target(allow_null=True, avoid=None):
+        """null or a reference to a used byte; `avoid`: not into this buffer (the protocol of Thm/C19 `astep`: the
+        pointer written by p:<b> is obtained before the allocation in <b>, so it must not point into <b>)"""
+        cands = [(b, o) for b in range(n) if used[b] > 0 and b != avoid for o in {0, used[b] - 1, r.randrange(used[b])}]
         if not cands or (allow_null and r.random() < 0.2):
             return "null"
         b, o = r.choice(sorted(cands))
@@ -574,18 +576,43 @@ def gen_ops(r, cid, growth=True, loads="mutated"):
         elif u < 0.56 and zero_areas:
             b, o = zero_areas.pop(r.randrange(len(zero_areas)))
             slots.append((b, o)); ops.append("r:%d:%d" % (b, o)); feats.add("reloc")
+        elif u < 0.60 and (zero_areas or any(l >= 8 for _, _, l in raw_areas)):
+            # register a slot that holds anything (zero bytes or raw junk) and store a pointer into it, in either order
+            big = [i for i, (_, _, l) in enumerate(raw_areas) if l >= 8]
+            if big and (not zero_areas or r.random() < 0.5):
+                i = r.choice(big)
+                b, o, l = raw_areas.pop(i)
+                s = r.randint(0, l - 8)
+                if s > 0:
+                    raw_areas.append((b, o, s))
+                if l - s - 8 > 0:
+                    raw_areas.append((b, o + s + 8, l - s - 8))
+                o += s
+                feats.add("regptr-raw")
+            else:
+                b, o = zero_areas.pop(r.randrange(len(zero_areas)))
+                feats.add("regptr-zero")
+            slots.append((b, o)); ops.append("rs:%d.%d:%s:%d" % (b, o, target(), r.randint(0, 1)))
+            if o % 8:
+                feats.add("unaligned-slot")
         elif u < 0.78 and slots:
             b, o = r.choice(slots)
             ops.append("sp:%d.%d:%s" % (b, o, target())); feats.add("setptr")
         elif u < 0.88 and rb:
             b = r.choice(rb)
-            slots.append((b, used[b])); ops.append("p:%d:%s" % (b, target())); used[b] += 8; feats.add("ptr")
+            if r.random() < 0.1:      # outside the protocol: a raw pointer into <b> kept across the allocation in <b>
+                t = target(); feats.add("ptr-same-buffer" if t.startswith("%d." % b) else "ptr")
+            else:
+                t = target(avoid=b); feats.add("ptr")
+            slots.append((b, used[b])); ops.append("p:%d:%s" % (b, t)); used[b] += 8
             if (used[b] - 8) % 8:
                 feats.add("unaligned-slot")
         elif u < 0.93 and raw_areas:
             b, o, l = r.choice(raw_areas)
             k = r.randint(1, l); s = r.randint(0, l - k)
             ops.append("k:%d.%d:%s" % (b, o + s, bytes(r.randrange(256) for _ in range(k)).hex())); feats.add("poke")
+        elif u < 0.96 and any(used):
+            ops.append("rt:%s" % target()); feats.add("rt")
         elif slots:
             b, o = r.choice(slots)
             ops.append("ref:%d.%d" % (b, o)); feats.add("ref")
@@ -654,6 +681,25 @@ def gen_ops(r, cid, growth=True, loads="mutated"):
     return cid + " " + " ".join(ops), feats
 
 
+INITS = [1, 1, 2, 3, 8, 16, 64, 1024]
+
+
+def twin_line(r, line):
+    """the same operation list under another configuration: other initial buffer size and/or the always-move hook
+    toggled (Thm/C19 run_abs: every address-free output and every saved image must be the same)"""
+    toks = line.split(" ")
+    cid, ops = toks[0], toks[1:]
+    _, n, init = ops[0].split(":")
+    move = len(ops) > 1 and ops[1] == "move:1"
+    rest = ops[2:] if move else ops[1:]
+    while True:
+        init2 = r.choice(INITS + [5, 100, 4096])
+        move2 = r.random() < 0.5
+        if (str(init2), move2) != (init, move):
+            break
+    return " ".join([cid + "t", "create:%s:%d" % (n, init2)] + (["move:1"] if move2 else []) + rest), move != move2
+
+
 # ---------------------------------------------------------------------------------------------
 # shared pieces of the three checks
 
@@ -692,7 +738,7 @@ def norm_ops(line):
     """canonical token list of an op-sequence result (C side or model side)"""
     out = []
     for t in line.split():
-        if t.startswith("UB:"):
+        if t.startswith("UB:") or t.startswith("OPSOK="):
             continue
         if t.startswith("CRASH:assert"):
             out.append("ASSERT")
@@ -701,6 +747,16 @@ def norm_ops(line):
         if t == "ASSERT":
             break
     return out
+
+
+def opsok(model_line):
+    """(k, flags): the first k output tokens of the line were produced inside the protocol of Thm/C19 (driver's
+    abstract-machine shadow); flags: SPECDIFF (the model left its proven specification), NOADM"""
+    for t in model_line.split():
+        if t.startswith("OPSOK="):
+            v = t[6:].split(":")
+            return int(v[0]), v[1:]
+    return 0, []
 
 
 def ops_agree(impl, model):
@@ -719,15 +775,53 @@ def ops_agree(impl, model):
     return True, "equal"
 
 
-def ops_tie(chk, b, n, tag, replay_case=None, growth=True, loads="mutated"):
-    """op-sequence correspondence of the Lean arena model with arena.c. Returns (found, cov, ub_seen)."""
+STORE = ("sp:", "p:", "rs:")
+ALLOC = ("w:", "z:", "s:", "p:")
+
+
+def store_alloc_readback(optoks, k):
+    """within the first k tokens: a pointer is stored, later an allocation happens, later a slot is read back"""
+    st = 0
+    for t in optoks[:k]:
+        if st == 0 and t.startswith(STORE) and not t.endswith(":null"):
+            st = 1
+        elif st == 1 and t.startswith(ALLOC):
+            st = 2
+        elif st == 2 and t.startswith("ref:"):
+            return True
+    return False
+
+
+def ops_tie(chk, b, n, tag, replay_case=None, growth=True, loads="mutated", twin=False, replay_twin=None):
+    """op-sequence correspondence of the Lean arena model with arena.c. Returns (found, cov, ub_seen).
+    twin=True: every op list is also run under a second configuration (other initial size / always-move toggled);
+    the two IMPLEMENTATION runs must agree token by token on the prefix that is inside the protocol of Thm/C19
+    (OPSOK, computed by the driver's abstract machine) — the executable shadow of `run_abs` — and each run must
+    agree with the model."""
     import collections, re
     from vf import core
     r = core.rng(tag)
     gen = [gen_ops(r, "a%d" % i, growth, loads) for i in range(n)]
     cases = [g[0] for g in gen]
+    twins = {}
     if replay_case:
         cases = [replay_case]
+        gen = []
+        if replay_twin:
+            twins[replay_case.split(" ", 1)[0]] = (replay_twin.split(" ", 1)[0], True)
+            cases.append(replay_twin)
+            twin = True
+        else:
+            twin = False
+    if twin and not replay_case:
+        rt = core.rng(tag + "/twin")
+        for c in list(cases):
+            cid = c.split(" ", 1)[0]
+            if cid.endswith("t"):
+                continue
+            t, moved = twin_line(rt, c)
+            twins[cid] = (t.split(" ", 1)[0], moved)
+            cases.append(t)
     env = scratch_env(chk.pid)
     impl, rc, err = core.run_parallel(capped(b["h_arena"]), cases, env=env)
     model, mrc, merr = core.run_parallel([core.driver_path(), "arena"], cases)
@@ -738,6 +832,7 @@ def ops_tie(chk, b, n, tag, replay_case=None, growth=True, loads="mutated"):
         return True, {}, set()
     mi = {l.split(" ", 1)[0]: l for l in impl}
     mm = {l.split(" ", 1)[0]: l for l in model}
+    byid = {c.split(" ", 1)[0]: c for c in cases}
     st = collections.Counter()
     ubs = collections.Counter()
     feats = collections.Counter()
@@ -752,11 +847,16 @@ def ops_tie(chk, b, n, tag, replay_case=None, growth=True, loads="mutated"):
         st[how] += 1
         for t in norm_ops(m)[1:]:
             st["tok:" + re.sub(r"[=:].*", "", re.sub(r"^\d+\.\d+$", "ref", t))] += 1
-        if not replay_case:
+        if i < len(gen):
             for f in gen[i][1]:
                 feats[f] += 1
         if "S=" in m and any(x.startswith("sp:") or x.startswith("p:") for x in c.split()):
             nontrivial.add(c.split(" ", 1)[1])
+        kk, flags = opsok(m)
+        if "SPECDIFF" in flags or "NOADM" in flags:
+            # the model left the specification it is proved to refine (or its own allocator is inadmissible): proof tie broken
+            ok, how = False, "model-vs-abstract-machine"
+            st["specdiff"] += 1
         if not ok:
             nbad += 1
             found = True
@@ -764,11 +864,71 @@ def ops_tie(chk, b, n, tag, replay_case=None, growth=True, loads="mutated"):
                 ni, nm = norm_ops(a), norm_ops(m)
                 at = next((j for j, (x, y) in enumerate(zip(ni, nm)) if x != y), min(len(ni), len(nm)))
                 chk.violation("arena_ops_diff_%d.json" % nbad,
-                              {"kind": "arena-model-implementation-disagreement", "engine": "arena", "harness": "h_arena", "case": c,
+                              {"kind": "arena-model-implementation-disagreement" if how != "model-vs-abstract-machine" else
+                                       "arena-model-leaves-its-abstract-machine",
+                               "engine": "arena", "harness": "h_arena", "case": c,
                                "first_difference_at_op": c.split()[at] if at < len(c.split()) else None,
                                "implementation": a[:4000], "model": m[:4000], "part": "ops"})
     cov = {"arena_op_sequences": len(cases), "arena_op_sequences_agree": len(cases) - nbad, "arena_ops_total": sum(len(c.split()) - 1 for c in cases),
            "arena_op_outcomes": dict(st.most_common(30)), "arena_op_features": dict(feats), "arena_ops_nontrivial": len(nontrivial)}
+    # ---- the theorem's executable shadow: same op list, two configurations, implementation against implementation
+    if twin:
+        tw = collections.Counter()
+        ophist = collections.Counter()
+        ntw = 0
+        for cid, (tid, moved) in twins.items():
+            a1, a2 = norm_ops(mi.get(cid, "")), norm_ops(mi.get(tid, ""))
+            m1, m2 = mm.get(cid, ""), mm.get(tid, "")
+            n1, n2 = norm_ops(m1), norm_ops(m2)
+            k1, _ = opsok(m1)
+            k2, _ = opsok(m2)
+            optoks = byid[cid].split(" ")[1:]
+            t2 = byid[tid].split(" ")[1:]
+            # token positions: line 1 and line 2 differ by the optional move:1 token after create -> align on the op list
+            o1 = 2 if len(optoks) > 1 and optoks[1] == "move:1" else 1
+            o2 = 2 if len(t2) > 1 and t2[1] == "move:1" else 1
+            kk = min(k1 - o1, k2 - o2)          # ops (after create/move) inside the protocol in both runs
+            tw["pairs"] += 1
+            if kk <= 0:
+                tw["pairs-empty-prefix"] += 1
+                continue
+            if kk == len(optoks) - o1:
+                tw["pairs-whole-line-in-protocol"] += 1
+            tw["ops-compared"] += kk
+            if moved:
+                tw["pairs-move-toggled"] += 1
+            if store_alloc_readback(optoks[o1:], kk):
+                tw["pairs-store-alloc-readback"] += 1
+            for t in optoks[o1:o1 + kk]:
+                ophist[t.split(":", 1)[0]] += 1
+            bad = None
+            for j in range(kk):
+                x1 = a1[1 + o1 + j] if 1 + o1 + j < len(a1) else "<missing>"
+                x2 = a2[1 + o2 + j] if 1 + o2 + j < len(a2) else "<missing>"
+                y1 = n1[1 + o1 + j] if 1 + o1 + j < len(n1) else ""
+                y2 = n2[1 + o2 + j] if 1 + o2 + j < len(n2) else ""
+                if "UNSPEC" in y1 or "UNSPEC" in y2:
+                    continue
+                if x1 != x2:
+                    bad = (j, x1, x2, "implementation")
+                    break
+                if y1 != y2:
+                    bad = (j, y1, y2, "model")
+                    break
+                if x1.startswith("S="):
+                    tw["images-compared"] += 1
+            if bad:
+                ntw += 1
+                found = True
+                tw["pairs-differ"] += 1
+                if ntw <= 5:
+                    chk.violation("arena_twin_diff_%d.json" % ntw,
+                                  {"kind": "result-depends-on-initial-size-or-move-schedule", "engine": "arena", "harness": "h_arena",
+                                   "case": byid[cid], "twin": byid[tid], "op": optoks[o1 + bad[0]], "where": bad[3],
+                                   "config_1": bad[1][:600], "config_2": bad[2][:600], "part": "ops",
+                                   "note": "same op list inside the protocol of Thm/C19 run_abs under two configurations: an address-free output or the saved image differs"})
+        cov["twin"] = dict(tw)
+        cov["twin_ops_in_protocol_histogram"] = dict(ophist)
     return found, cov, set(ubs)
 
 
